@@ -7,8 +7,8 @@ package main
 
 import (
 	"fmt"
-	"os"
 	"math/big"
+	"os"
 	"sort"
 	"strings"
 )
@@ -679,10 +679,11 @@ func (tb *TB) sliceHyps(pc, neg *Term) *Term {
 	return tb.And(out...)
 }
 
-
 // hashCongruence: the abstract digest update uf_hupd(h, elems, off, len) depends on the covered bytes only.
 // For every pair of applications with the same initial state occurring in the query the ground instance
-//   off1 = off2 /\ len1 = len2 /\ (forall i in [0,len): e1[off1+i] = e2[off2+i])  ==>  hupd1 = hupd2
+//
+//	off1 = off2 /\ len1 = len2 /\ (forall i in [0,len): e1[off1+i] = e2[off2+i])  ==>  hupd1 = hupd2
+//
 // is added (the universal premise is skolemised, so the instance is quantifier-free).
 func (tb *TB) hashCongruence(asserts []*Term) []*Term {
 	var apps []*Term
